@@ -1,24 +1,4 @@
-// ---- ISO/IEC 16022 5.2.5 C40 / 5.2.6 Text encodation, encoder side: the values of a character (Table 6) ----
-// values of a 7-bit character (basic set: one value; shift sets: the shift value 0 / 1 / 2 and the value in the set)
-pub open spec fn c40_low(ch: u8) -> Seq<u8> {
-    if ch == 32 { seq![3u8] }
-    else if 48 <= ch <= 57 { seq![(ch - 48 + 4) as u8] }
-    else if 65 <= ch <= 90 { seq![(ch - 65 + 14) as u8] }
-    else if ch <= 31 { seq![0u8, ch] }
-    else if 33 <= ch <= 47 { seq![1u8, (ch - 33) as u8] }
-    else if 58 <= ch <= 64 { seq![1u8, (ch - 58 + 15) as u8] }
-    else if 91 <= ch <= 95 { seq![1u8, (ch - 91 + 22) as u8] }
-    else { seq![2u8, (ch - 96) as u8] }
-}
-// the Text set is the C40 set with the cases of the letters exchanged
-pub open spec fn swap_case(ch: u8) -> u8 {
-    if 65 <= ch <= 90 { (ch + 32) as u8 } else if 97 <= ch <= 122 { (ch - 32) as u8 } else { ch }
-}
-pub open spec fn low_vals(ch: u8, text: bool) -> Seq<u8> { if text { c40_low(swap_case(ch)) } else { c40_low(ch) } }
-// any character: 128..=255 are written as Shift 2, Upper Shift (value 30), then the values of ch - 128
-pub open spec fn char_vals(ch: u8, text: bool) -> Seq<u8> {
-    if ch <= 127 { low_vals(ch, text) } else { seq![1u8, 30u8] + low_vals((ch - 128) as u8, text) }
-}
+// ---- C40 / Text encodation, encoder side (continues spec/iso_c40_vals.rs: the Table 6 values of a character) ----
 pub open spec fn str_vals(s: Seq<u8>, text: bool) -> Seq<u8>
     decreases s.len()
 {
